@@ -239,6 +239,9 @@ class NonBondEngine():
         """
         for mol_idx, molecule in enumerate(molecules):
             for node in molecule.nodes:
+                # molecules that are ignored are not part of the engine
+                if (mol_idx, node) not in self.nodes_to_gndx:
+                    continue
                 gndx = self.nodes_to_gndx[(mol_idx, node)]
                 molecule.nodes[node]["position"] = self.positions[gndx]
 
@@ -347,7 +350,7 @@ class NonBondEngine():
         return prob
 
     @classmethod
-    def from_topology(cls, molecules, topology, box):
+    def from_topology(cls, molecules, topology, box, mol_idxs=None):
         """
         Create a class instance from a topology object,
         a list of molecules and a box.
@@ -357,7 +360,12 @@ class NonBondEngine():
         molecules: list
         topology: :class:`polyply.src.topology`
         box: np.nadarray
+        mol_idxs: list[int]
+            the index each of the molecules has in the topology;
+            by default the position in `molecules`
         """
+        if mol_idxs is None:
+            mol_idxs = range(len(molecules))
 
         n_atoms = _n_particles(molecules)
 
@@ -369,8 +377,7 @@ class NonBondEngine():
 
         atom_types = []
         idx = 0
-        mol_count = 0
-        for molecule in molecules:
+        for mol_count, molecule in zip(mol_idxs, molecules):
             for node in molecule.nodes:
                 if "position" in molecule.nodes[node]:
                     # check if position is inside grid
@@ -397,8 +404,6 @@ class NonBondEngine():
                 atom_types.append(resname)
                 nodes_to_gndx[(mol_count, node)] = idx
                 idx += 1
-
-            mol_count += 1
 
         inter_matrix = {}
         for res_a, res_b in itertools.combinations(set(atom_types), r=2):
